@@ -11,7 +11,7 @@ META = {
             'the instruction/table is intact, and truth itself can read the file back for the same game; otherwise there must be an error diagnostic. distinct = (field, game, value class); non-trivial = value '
             'at or beyond a field boundary',
     'assumptions': ['field widths as in DESIGN.md B.1 (independent layout parser)'],
-    'floors': {'fields': 40, 'accepted_and_verified': 500, 'rejected_with_diagnostic': 150, 'beyond_boundary_values': 300, 'count_cases': 2, 'readback_ok': 400},
+    'floors': {'string_tables': 30, 'fields': 40, 'accepted_and_verified': 500, 'rejected_with_diagnostic': 150, 'beyond_boundary_values': 300, 'count_cases': 2, 'readback_ok': 400},
 }
 SIZES = {'quick': 2500, 'thorough': 60000}
 ANM_GAMES = ['th06', 'th07', 'th08', 'th095', 'th10', 'th11', 'th12', 'th13', 'th14', 'th17', 'th18']
@@ -401,6 +401,38 @@ def count_case(ctx, r, which=None):
     ctx.count('accepted_and_verified'); ctx.count('beyond_boundary_values'); ctx.fp('field', '%s %s %d' % (field, game, n))
     readback(ctx, tool, game, None, field, replay)
 
+def string_table_case(ctx, r):
+    """Modern ECL: the ANIM / ECLI include lists and the sub-name table are lists of NUL-terminated Shift-JIS strings padded to 4 bytes;
+    names of every byte length (multi-byte characters: byte length != character count) must come back, and the file must be readable."""
+    game = r.pick(ECL10_GAMES)
+    def name(ext=''):
+        n = r.randint(1, 9)
+        return ''.join(r.pick(['a', 'b', 'c', '_', 'x', '\u6575', '\u5f3e', '\u30a2', '\u3042']) if r.chance(0.6) else r.pick('abcdefgh') for _ in range(n)) + ext
+    anim = [name('.anm') for _ in range(r.randint(0, 3))]; ecli = [name('.ecl') for _ in range(r.randint(0, 3))]
+    subs = []
+    while len(subs) < r.randint(1, 4):
+        nm = r.pick(['sub', 'Boss', 's']) + ''.join(r.pick('abcxyz0123456789_') for _ in range(r.randint(0, 9)))
+        if nm not in subs: subs.append(nm)
+    text = 'meta { anim: [%s], ecli: [%s] }\n' % (', '.join('"%s"' % x for x in anim), ', '.join('"%s"' % x for x in ecli))
+    text += ''.join('void %s() {\n ins_900(%d);\n}\n' % (nm, k) for k, nm in enumerate(subs))
+    mapfile = '!eclmap\n!ins_signatures\n900 S\n'
+    field = 'ecl10.string-tables'
+    replay = {'field': field, 'game': game, 'text': text, 'mapfile': mapfile}
+    res = compile_and_parse(ctx, 'ecl', game, text, mapfile, L.parse_ecl10, replay)
+    if res is None: return
+    if res[0] == 'rejected': ctx.count('rejected_with_diagnostic'); ctx.seen('reject_reasons', field + ': ' + core.norm_msg(core.headline(res[1]))[:70]); return
+    if res[1] is None:
+        ctx.violation('narrowing:%s:file-corrupt' % field, 'include lists %s / %s: compile succeeded but the file does not parse (%s)' % (anim, ecli, res[3]), replay); return
+    p = res[1]
+    got = ([x.decode('shift_jis', 'replace') for x in p['anim']], [x.decode('shift_jis', 'replace') for x in p['ecli']], [sb['name'].decode('shift_jis', 'replace') for sb in p['subs']])
+    if got != (anim, ecli, subs):
+        ctx.violation('narrowing:%s:strings-changed' % field, 'wrote %s, file holds %s' % ((anim, ecli, subs), got), replay); return
+    if [int.from_bytes(sb['instrs'][0].blob[:4], 'little') for sb in p['subs']] != list(range(len(subs))):
+        ctx.violation('narrowing:%s:subs-damaged' % field, 'sub bodies do not follow the name table', replay); return
+    ctx.seen('fields', field); ctx.count('accepted_and_verified'); ctx.count('string_tables')
+    ctx.fp('field', '%s %s %d %d' % (field, game, sum(len(x.encode('shift_jis')) + 1 for x in anim) % 4, sum(len(x.encode('shift_jis')) + 1 for x in ecli) % 4))
+    readback(ctx, 'ecl', game, mapfile, field, replay)
+
 def run_shard(ctx):
     r = ctx.rng
     n = SIZES[ctx.tier] // ctx.nshards + 1
@@ -408,7 +440,10 @@ def run_shard(ctx):
     if ctx.tier == 'thorough' or ctx.shard < len(kinds):
         count_case(ctx, r, kinds[ctx.shard % len(kinds)])
     for i in range(n):
-        (instr_case if r.chance(0.6) else meta_case)(ctx, r)
+        k = r.random()
+        if k < 0.05: string_table_case(ctx, r)
+        elif k < 0.62: instr_case(ctx, r)
+        else: meta_case(ctx, r)
 
 def replay(path):
     rec = json.load(open(path)); print(json.dumps(rec, indent=1)[:3000]); return 0
